@@ -115,3 +115,6 @@ PROPS["C06"] = dict(streams=["C06"], kernel_cases=100, timeout=600, classify=cla
     trusted_base=JSON_TB, assumptions=["numbers finite"], partial=[])
 PROPS["C08"] = dict(streams=["C08"], kernel_cases=100, timeout=600, rule=JSON_RULE + "; every accepted text is re-parsed under 7 index-option variants (child threshold 0/1/3/64, geometry threshold 0/1/64, both kinds), 3 representation-option variants and with RequireValid: JSON, rect, empty, valid, point count and 30 predicate answers against 6 probe objects must be identical; Circle still recognised; RequireValid rejects exactly when a nested standard object is invalid",
     trusted_base=JSON_TB, assumptions=[], partial=[])
+PROPS["C17"] = dict(streams=["C17", "C17p"], kernel_cases=150, timeout=600,
+    rule="random object trees built through NewPoint/NewPointZ/NewSimplePoint/NewRect/NewLineString/NewPolygon (incl. nil)/NewCircle/NewMulti*/NewGeometryCollection/NewFeatureCollection/NewFeature with finite grid values, NaN and +-Inf ordinates, 0-5 positions per series, and member strings (JSON objects with nested values rendered with random whitespace, the empty object with inner whitespace, non-object and invalid texts); per object: JSON()==String()==MarshalJSON()==AppendJSON(nil); AppendJSON onto a prefix with six spare capacities leaves the prefix untouched and appends exactly those bytes; the bytes are one valid JSON object for two independent tokenizers, with the kind's GeoJSON type name and coordinate nesting depth, no bare NaN/Inf; bytes compared with the Coq model of the writers; plus the grammar/mutant document stream of C06 for objects built through Parse (output valid JSON, spellings agree, AppendJSON appends). non-trivial: all; distinct = distinct case lines",
+    trusted_base=JSON_TB, assumptions=["negative zero is not generated (the grid has no -0; strconv prints it as -0)", "member texts containing a top-level \"feature\" key (sjson.Delete path) are not generated"], partial=["that emit's bytes are the text of a JSON tree is checked per case, not proved for all objects"])
